@@ -141,7 +141,7 @@ class Scn:
         for o in self.objs:
             toks.append('o:' + (o if not o.startswith('R') else 'R%s~%s' % (o[1:], pcre[o[1:]])))
         toks += ['p:' + ','.join(str(i) for i in p) for p in self.pipes]
-        toks += ['m:%d:%d:%d:%s' % m for m in self.msgs]
+        toks += ['m:%d:%d:%d:%s' % tuple(m[:4]) + (':%d' % m[4] if len(m) > 4 and m[4] else '') for m in self.msgs]
         return ' '.join(toks)
 
     def kinds(self):
@@ -186,9 +186,13 @@ def gen_scenario(rng, hist, big):
             p = [rng.randrange(len(objs) + (1 if rng.random() < 0.05 else 0)) for _ in range(k)]
             pipes.append(p)
     msgs = []
+    # which harness thread constructs and sends each message: all on the main thread, or a pool of 2-4 threads
+    # (the rules are about the sequence a handler sees, whoever logs)
+    threads = [0] if rng.random() < 0.4 else rng.sample([0, 1, 2, 3], rng.randint(2, 4))
+    hist['threads_%d' % len(threads)] = hist.get('threads_%d' % len(threads), 0) + 1
     for t in texts:
         p = rng.randrange(len(pipes)) if rng.random() > 0.02 else len(pipes)   # rarely: a pipeline that does not exist
-        msgs.append((p, rng.randrange(5), rng.choice([0, 0, 0, 1, 2, 3, 4, 5, 7]), tok_text(t)))
+        msgs.append((p, rng.randrange(5), rng.choice([0, 0, 0, 1, 2, 3, 4, 5, 7]), tok_text(t), rng.choice(threads)))
     return Scn(objs, pipes, msgs)
 
 
@@ -198,7 +202,7 @@ def exhaustive_scenarios(maxlen):
     texts = [NULL, '', u16('a'), u16('A')]
     for k in range(1, maxlen + 1):
         for seq in itertools.product(range(len(texts) * 2), repeat=k):
-            msgs = [(i % 2, 4, (s // len(texts)), texts[s % len(texts)]) for i, s in enumerate(seq)]
+            msgs = [(i % 2, 4, (s // len(texts)), texts[s % len(texts)], (i + k) % 3) for i, s in enumerate(seq)]
             yield Scn(['N', 'X0', 'D'], [[0, 1, 2], [2, 0]], msgs)
 
 
@@ -262,22 +266,28 @@ def shrink(run, scn):
     scn = with_pos(pos)
     # shorten the texts
     for mi in range(len(scn.msgs)):
-        p, t, f, tx = scn.msgs[mi]
+        p, t, f, tx, th = (tuple(scn.msgs[mi]) + (0,))[:5]
         if tx in (NULL, ''):
             continue
         units = [tx[i:i + 4] for i in range(0, len(tx), 4)]
 
-        def with_text(us, mi=mi, p=p, t=t, f=f):
-            ms = list(scn.msgs); ms[mi] = (p, t, f, ''.join(us)); return Scn(scn.objs, scn.pipes, ms)
+        def with_text(us, mi=mi, p=p, t=t, f=f, th=th):
+            ms = list(scn.msgs); ms[mi] = (p, t, f, ''.join(us), th); return Scn(scn.objs, scn.pipes, ms)
         # never shrink to the empty text by accident of equality: keep at least what fails
         us = vlib.shrink_list(units, lambda us: run.bad(with_text(us)), max_steps=40)
         scn = with_text(us)
     scn = prune(scn)
     for mi in range(len(scn.msgs)):   # flags and types towards 0 / debug
-        p, t, f, tx = scn.msgs[mi]
-        for cand in ((p, 0, 0, tx), (p, t, 0, tx), (p, 0, f, tx)):
+        p, t, f, tx, th = (tuple(scn.msgs[mi]) + (0,))[:5]
+        for cand in ((p, 0, 0, tx, th), (p, t, 0, tx, th), (p, 0, f, tx, th)):
             ms = list(scn.msgs); ms[mi] = cand
-            if cand != scn.msgs[mi] and run.bad(Scn(scn.objs, scn.pipes, ms)):
+            if cand != (p, t, f, tx, th) and run.bad(Scn(scn.objs, scn.pipes, ms)):
+                scn = Scn(scn.objs, scn.pipes, ms); break
+    for mi in range(len(scn.msgs)):   # threads towards the main thread / a smaller tag
+        p, t, f, tx, th = (tuple(scn.msgs[mi]) + (0,))[:5]
+        for cand_th in range(th):
+            ms = list(scn.msgs); ms[mi] = (p, t, f, tx, cand_th)
+            if run.bad(Scn(scn.objs, scn.pipes, ms)):
                 scn = Scn(scn.objs, scn.pipes, ms); break
     return scn
 
@@ -299,14 +309,15 @@ def prune(scn):
 KIND = {'D': 'duplicate', 'N': 'seqnumber', 'V': 'level', 'R': 'regex'}
 OBJ_DOC = ('o:D DuplicateFilter, o:N SeqNumberAttr("s<k>"), o:V<t> LevelFilter(QtMsgType t), o:R<ast>~<PCRE hex> RegExpFilter, '
            'o:FC/FT formatter (constant "X" / shown text + flags char), o:X<b> filter dropping iff bit b of the flags; '
-           'p: pipeline = object numbers; m:<pipeline>:<QtMsgType>:<flags>:<text hex UTF-16, - = null>; observations: per message '
+           'p: pipeline = object numbers; m:<pipeline>:<QtMsgType>:<flags>:<text hex UTF-16, - = null>[:<harness thread that constructs and sends it, 0 = main>]; observations: per message '
            'the handler calls (1/0 verdict, 1=<n> sequence number), messages end with ;')
 
 
 def describe(scn, run):
     d = []
-    for p, t, f, tx in scn.msgs:
-        d.append({'pipeline': p, 'type': ['debug', 'warning', 'critical', 'fatal', 'info'][t], 'flags': f,
+    for m in scn.msgs:
+        p, t, f, tx, th = (tuple(m) + (0,))[:5]
+        d.append({'pipeline': p, 'thread': th, 'type': ['debug', 'warning', 'critical', 'fatal', 'info'][t], 'flags': f,
                   'text': None if tx == NULL else bytes.fromhex(tx).decode('utf-16-be', 'surrogatepass').encode('unicode_escape').decode()})
     regs = {a: bytes.fromhex(run.pcre[a]).decode() for a in regex_asts([scn]) if not run.pcre.get(a, '!').startswith(('!', 'E'))}
     return d, regs
@@ -326,7 +337,8 @@ def run():
                        'a message text with an unpaired surrogate is ill-formed UTF-16: QRegularExpression reports no match for it, '
                        'whatever the expression (modelled; the regex theorem is stated for well-formed texts)',
                        'a SeqNumberAttr object sees at most 2^31 messages (int counter; signed overflow is undefined behaviour)',
-                       'handler objects are called sequentially (concurrency is C02)']
+                       'handler objects are called sequentially (concurrency is C02); messages may come from different threads, '
+                       'the rules speak of the sequence a handler object sees, whoever logs']
     chk.proof(vlib.proof_leg('Properties_C16', ['filters']))
     try:
         model = vlib.build_model('filters')
@@ -447,11 +459,13 @@ def run():
             for m in o.split(';'):
                 for c in m.split(','):
                     regex_true += c == '1'; regex_false += c == '0'
+    multi_thread = sum(1 for s in scns if len({(tuple(m) + (0,))[4] for m in s.msgs}) > 1)
     shared = sum(1 for s in scns if any(sum(1 for p in s.pipes if i in p) >= 2 for i, ob in enumerate(s.objs) if ob in ('D', 'N')))
     nontrivial = {l for l, o in zip(lines, obs_i) if '0' in o.replace('=0', '') and '1' in o}
     textclass = {'null': 0, 'empty': 0, 'illformed': 0, 'astral': 0}
     for s in scns:
-        for _, _, _, tx in s.msgs:
+        for m in s.msgs:
+            tx = m[3]
             if tx == NULL:
                 textclass['null'] += 1
             elif tx == '':
@@ -467,7 +481,7 @@ def run():
     chk.cov.update({
         'evaluations': len(scns) + 25, 'distinct_nontrivial': len(nontrivial),
         'rule': 'scenarios = handler objects (real DuplicateFilter/SeqNumberAttr/LevelFilter/RegExpFilter, scripted formatters and '
-                'drop filters) placed in 1-3 real pipelines (objects shared), 4-%d messages each with texts drawn as runs/alternations '
+                'drop filters) placed in 1-3 real pipelines (objects shared), 4-%d messages each (constructed and sent, one after the other, from up to 4 harness threads) with texts drawn as runs/alternations '
                 'from confusable pools (case, whitespace, NFC/NFD, null/empty, newline, astral, ill-formed); plus every sequence of '
                 'length <= %d over {null, "", "a", "A"} x drop flag through two pipelines sharing N and D; plus all 25 '
                 '(threshold, type) pairs; non-trivial = a scenario with both verdicts observed' % (40 if thorough else 22, ex_len),
@@ -475,7 +489,7 @@ def run():
         'messages': nmsgs, 'handler_calls_observed': len(calls),
         'verdict_histogram': {'pass': sum(1 for c in calls if c[0] == '1'), 'drop': sum(1 for c in calls if c[0] == '0'),
                               'numbered': sum(1 for c in calls if '=' in c)},
-        'object_kind_histogram': kinds_hist, 'scenarios_with_shared_stateful_object': shared,
+        'object_kind_histogram': kinds_hist, 'scenarios_with_shared_stateful_object': shared, 'scenarios_logged_from_several_threads': multi_thread,
         'regex_expressions': len(run_.pcre), 'regex_only_verdicts': {'match': regex_true, 'no_match': regex_false},
         'text_classes': textclass, 'generator_histogram': dict(sorted(hist.items())),
         'disagreements_model_vs_impl': len(disagree), 'oracle_evaluated_on_impl_scenarios': len(verdicts),
